@@ -57,9 +57,18 @@ def run_one(sdir, checks=None, verbose=True):
         code, out = sh([PY, "-m", "pytest", "-q", "-p", "no:cacheprovider", "-x"], scratch)
         m = re.search(r"(\d+) passed", out)
         res["tests"] = {"exit": code, "passed": int(m.group(1)) if m else 0}
-        code, out = sh([PY, demo], scratch, {"PYTHONPATH": scratch})
+        # demos expect to live in <tree>/OUT/ (they put their grand-parent directory on sys.path)
+        os.makedirs(os.path.join(scratch, "OUT"), exist_ok=True)
+        shutil.copy(demo, os.path.join(scratch, "OUT", "demo.py"))
+        code, out = sh([PY, "OUT/demo.py"], scratch, {"PYTHONPATH": scratch})
         res["demo_with"] = code
-        code2, out2 = sh([PY, demo], "/repo", {"PYTHONPATH": "/repo"})
+        clean = make_scratch(None)
+        try:
+            os.makedirs(os.path.join(clean, "OUT"), exist_ok=True)
+            shutil.copy(demo, os.path.join(clean, "OUT", "demo.py"))
+            code2, out2 = sh([PY, "OUT/demo.py"], clean, {"PYTHONPATH": clean})
+        finally:
+            shutil.rmtree(clean, ignore_errors=True)
         res["demo_without"] = code2
         for pid in (checks or meta.get("checks") or [meta["property"]]):
             t0 = time.time()
